@@ -55,7 +55,11 @@ def gen_recipe(rng, big_lengths=False):
                 require, require_sets = 0, []       # the exact pre-flight arithmetic of the model is for moderate lengths
             elif len(require_sets) > 2:
                 require_sets = require_sets[:2]
-    return Recipe(length, allow, require, exclude, allow_chars, require_sets, exclude_chars)
+    r = Recipe(length, allow, require, exclude, allow_chars, require_sets, exclude_chars)
+    if length >= 128:
+        # long candidates with few attempts: the model replays every attempt of a tape (attempts x Length picks)
+        r.budget = rng.choice([(2, 1, 2), (5, 1, 1000000000), (1, 1, 1), (3, 1, 4)])
+    return r
 
 
 def discard(n):
@@ -361,6 +365,8 @@ def with_resplits(rng, recs):
         if r.require_sets and rng.random() < 0.5:
             v = resplit(rng, r)
             if v is not None:
+                if hasattr(r, "budget"):
+                    v.budget = r.budget
                 out.append(v)
                 if rng.random() < 0.5:
                     out.append(r)
